@@ -1,6 +1,7 @@
 (* C28 model driver.  One directory tree + program per line, tab separated; paths and
    strings hex encoded UTF-8, absolute paths split at '/' (glue):
-     <cwd> <mod_dir> <main file> <fs: F<path>|D<path> comma separated> <program>
+     <cwd> <mod_dir> <main file> <fs: F<path>|D<path> comma separated> <program> [<fixed 0/1>]
+       fixed: which code variant is modelled (cfg.c_fixed; default 0 = pinned commit, `#mod("")` passes the name test)
      program: <file>=<dir>,<dir>..;<file>=...   dir: I<str> | M<str> | i<n> | m<n> | IX | MX | I- | M-
        (i<n>/m<n>: n <> 1 arguments, IX/MX: non-string argument, I-/M-: no argument list)
    Output: E:<compiled files in order, comma separated | CRASH<n> | FUEL> then for every file of the
@@ -43,7 +44,8 @@ let () =
     let f = Array.of_list (split_on '\t' line) in
     let fs = List.filter (fun s -> s <> "") (split_on ',' f.(3)) in
     let fs = List.map (fun s -> (path (String.sub s 1 (String.length s - 1)), if s.[0] = 'F' then File else Dir)) fs in
-    let c = { c_mod_dir = path f.(1); c_cwd = path f.(0); c_fs = fs } in
+    let fixed = Array.length f > 5 && String.trim f.(5) = "1" in
+    let c = { c_mod_dir = path f.(1); c_cwd = path f.(0); c_fs = fs; c_fixed = fixed } in
     let prog = List.filter (fun s -> s <> "") (split_on ';' f.(4)) in
     let prog = List.map (fun s ->
         match split_on '=' s with
